@@ -2,3 +2,4 @@
 pub mod sched;
 pub mod trace;
 pub mod util;
+pub mod sqlexec;
